@@ -404,6 +404,18 @@ fn fmt_out(gs: &[G]) -> String {
     v.join(",")
 }
 
+/// outputs longer than this are reported as (length, digest)
+const BIG: usize = 1000;
+
+/// h' = (h * 1000003 + gid * 131 + cluster + 1) mod 2^32 over the output, from 0 (mirrored by Corr/MorxC.v)
+fn digest(gs: &[G]) -> u64 {
+    let mut h: u64 = 0;
+    for g in gs {
+        h = (h * 1000003 + (g.gid as u64) * 131 + g.cluster as u64 + 1) % (1u64 << 32);
+    }
+    h
+}
+
 fn shape_bytes(bytes: &[u8], req: &Req) -> Result<Vec<G>, String> {
     let b = bytes.to_vec();
     let r = req.clone();
@@ -466,7 +478,11 @@ fn gen(args: &[String]) {
                         println!("generic-fail {} {} {} :: {} :: {}", i, j, why, fmt_req(&req), fmt_out(out));
                     }
                     if stream == Stream::Wf {
-                        println!("case {} {} {} -> ok {}", i, j, fmt_req(&req), fmt_out(out));
+                        if out.len() > BIG {
+                            println!("case {} {} {} -> big {} {}", i, j, fmt_req(&req), out.len(), digest(out));
+                        } else {
+                            println!("case {} {} {} -> ok {}", i, j, fmt_req(&req), fmt_out(out));
+                        }
                     }
                 }
                 Err(c) => {
